@@ -6,12 +6,19 @@ PID = 'C08'
 MANIFEST = dict(
     text='Theorems C08_* (lean/IprProps/C08.lean) prove, for every insertion sequence and every lawful comparator, that the '
          'model of rb_tree insertion keeps the red-black rules and the search order, finds exactly the inserted keys, returns the '
-         'existing element on an equal key, and has height <= 2*log2(n+1); the model is tied to include/ipr/utility by an exact-shape '
-         'correspondence after every insertion (all permutations / duplicate sequences up to a bound, long adversarial runs) and the '
-         'verified checkers are run on the real shapes. Partial for one conjunct: consistent parent links are only checked at run time.',
-    note='Lean kernel; axioms propext/Classical.choice/Quot.sound; hand-written model tied by correspondence only on generated '
-         'sequences; harness rbprobe.cxx, ASan/UBSan, g++.',
-    technique='Lean 4 theorems (induction over insertion histories) + exact-shape differential correspondence',
+         'existing element on an equal key, and has height <= 2*log2(n+1). Consistent parent links are proved as well: theorems '
+         'C08_linked_* show that a pointer-level model (lean/IprModel/RBLinked.lean: a store of cells with left/right/parent fields, '
+         'rotate_left, rotate_right, fixup_insert, container::insert, chain::insert and find written statement by statement as the C++) '
+         'never dereferences a null pointer, never exhausts its loop budget and refines the persistent model after every insertion, so '
+         'every child\'s parent field names its parent and the root\'s is null for every insertion sequence, in both flavours. Both '
+         'models are tied to include/ipr/utility by an exact correspondence after every insertion (all permutations / duplicate '
+         'sequences up to a bound, long adversarial runs): shape, colours, size, find answers and every node\'s parent; the verified '
+         'checkers are run on the real shapes.',
+    note='Lean kernel; axioms propext/Classical.choice/Quot.sound; hand-written models tied by correspondence only on generated '
+         'sequences; addresses of the pointer-level model are allocation indices (the real addresses are canonicalised away by printing '
+         'parent keys); harness rbprobe.cxx, ASan/UBSan, g++.',
+    technique='Lean 4 theorems (induction over insertion histories; refinement of a persistent zipper model by a pointer-level store '
+              'model) + exact-shape-and-parent-link differential correspondence',
     ref='§4 C08')
 
 
@@ -60,9 +67,9 @@ def ops_of(flavour, cmp, keys, dump_every, probes):
     for i, k in enumerate(keys):
         ops.append('ins ' + key_s(k))
         if (i + 1) % dump_every == 0:
-            ops.append('dump')
+            ops += ['dump', 'pdump']
     if dump_every != 1:
-        ops.append('dump')
+        ops += ['dump', 'pdump']
     ops.append('stat')
     for p in probes:
         ops.append('find ' + key_s(p))
@@ -163,11 +170,14 @@ def run(tier):
         impl_lines = [l for l, _ in impl]
         d = C.first_diff(impl_lines, model_lines)
         if d is not None:
-            res.violation('correspondence:rbtree-shape',
-                          'implementation and model disagree at op %d `%s`\n impl : %s\n model: %s\n'
+            ml = model_lines[d] if d < len(model_lines) else '<none>'
+            linked = ops[d] == 'pdump' or ml.startswith('linked-') or impl_lines[d].startswith('n=')
+            res.violation('correspondence:rbtree-links' if linked else 'correspondence:rbtree-shape',
+                          'implementation and %s model disagree at op %d `%s`\n impl : %s\n model: %s\n'
                           'the implementation trace itself satisfies the statement of C08 (oracle + verified checkers), '
-                          'so the theorems no longer speak about this code' % (d, ops[d], impl_lines[d][:300], model_lines[d][:300] if d < len(model_lines) else '<none>'),
-                          'correspondence: harness/rbprobe.cxx vs lean/IprModel/RBTree.lean (theorems IprProps/C08.lean)\n' + '\n'.join(seq_of(d)),
+                          'so the theorems no longer speak about this code' % ('pointer-level' if linked else 'persistent', d, ops[d], impl_lines[d][:300], ml[:300]),
+                          'correspondence: harness/rbprobe.cxx vs lean/IprModel/%s (theorems IprProps/C08.lean)\n' % ('RBLinked.lean' if linked else 'RBTree.lean')
+                          + '\n'.join(seq_of(d)),
                           found_input=False)
     if not ok:
         res.proof_broken('IprProps.C08', detail)
@@ -179,16 +189,18 @@ def run(tier):
     res.cov['traces_validated_against_impl'] = len(starts)
     res.cov['ops'] = len(ops)
     res.cov['real_shapes_checked_by_verified_checkers'] = len(chk)
+    res.cov['real_parent_link_dumps_compared_with_pointer_level_model'] = sum(1 for i, op in enumerate(ops) if op == 'pdump' and i < len(impl))
     res.cov['fixup_case_distribution(case/climbs)'] = dict(sorted(cases.items()))
     res.cov['sequence_kinds'] = labels
     res.cov['exhaustive'] = False
     res.assumptions += [
-        'consistent parent links are checked on the real structure after every dump/stat (not proved: the model is persistent)',
+        'consistent parent links are proved on the pointer-level model (C08_linked_parent_links); that model is compared with the real '
+        'structure (shape, colours, size, each node\'s parent) after every dump, and the probe also checks the real links itself (@links)',
         'comparators of the probe (int, address, lexicographic; also difference-valued variants with the same sign) are the lawful instances proved in C08_icmp_lawful / C08_lexCmp_lawful',
     ]
     return res.finish(info, rule='all permutations of 1..n and all duplicate-bearing sequences over {1..4} up to the tier bound, '
                       'lexicographic keys, then long sorted/reversed/random/organ-pipe/zig-zag/few-distinct sequences; exact shape, size, '
-                      'result identity and find answers compared with the model after every insertion (long runs: periodically); '
+                      'result identity, find answers and every node\'s parent compared with the two models after every insertion (long runs: periodically); '
                       'a trace is one insertion sequence')
 
 
